@@ -20,7 +20,19 @@
 (*                       BinOps (R op2 C) | ScalarOps (scalar s2)          *)
 (*   i2, j2, s2          write position / scalar of op2                    *)
 (*   ckind, cml, cmu, cpat   the fresh operand C of a binary op2           *)
-(* Steps of a scenario: ctorA, fillA, [ctorB, fillB,] op,                  *)
+(*   pf                  0, or a "prefill" value: A (and B unless it is an *)
+(*                       Identity) is first handed to the public           *)
+(*                       Matrix::fill(pf), which sets the WHOLE backing    *)
+(*                       buffer - for Banded storage also the corner cells *)
+(*                       of the band buffer that belong to no entry - and  *)
+(*                       the pattern is then written into EVERY writable   *)
+(*                       entry (zeros where the pattern has none).         *)
+(*                       fill itself is not specified by C17; the meaning  *)
+(*                       after the writes is fixed by the readable entries *)
+(*                       alone (Level A), while the Level-B model carries  *)
+(*                       the unaddressable cells.                          *)
+(* Steps of a scenario: ctorA, [prefillA,] fillA,                          *)
+(*                      [ctorB, [prefillB,] fillB,] op,                    *)
 (*                      [[ctorC, fillC,] op2].                             *)
 (***************************************************************************)
 EXTENDS Matrix, MatrixContract
@@ -42,12 +54,15 @@ PatVal(pat, n, i, j) ==
     [] pat = "tiny" -> G(1 + i * n + j, -1)                            \* all entries distinct, non-zero, below 2^-75
     [] pat = "eyet" -> IF i = j THEN 1 ELSE IF i = n - 1 /\ j = n - 2 THEN TINY ELSE NOWRITE   \* identity up to 2^-80: NOT an identity
 
-\* the writes of a pattern into a matrix with storage st: row-major over the writable cells
-FillWrites(pat, st, n) ==
+\* the writes of a pattern into a matrix with storage st: row-major over the writable cells;
+\* all = TRUE: every writable cell is written (0 where the pattern has no value)
+FillWritesX(pat, st, n, all) ==
   LET cells == [x \in 1..(n * n) |-> <<(x - 1) \div n, (x - 1) % n>>]
-      Sel(c) == Writable(st, c[1], c[2]) /\ PatVal(pat, n, c[1], c[2]) # NOWRITE
+      Sel(c) == Writable(st, c[1], c[2]) /\ (all \/ PatVal(pat, n, c[1], c[2]) # NOWRITE)
       chosen == SelectSeq(cells, Sel)
-  IN [k \in 1..Len(chosen) |-> <<chosen[k][1], chosen[k][2], PatVal(pat, n, chosen[k][1], chosen[k][2])>>]
+      Val(c) == LET v == PatVal(pat, n, c[1], c[2]) IN IF v = NOWRITE THEN 0 ELSE v
+  IN [k \in 1..Len(chosen) |-> <<chosen[k][1], chosen[k][2], Val(chosen[k])>>]
+FillWrites(pat, st, n) == FillWritesX(pat, st, n, FALSE)
 
 \* data handed to from_vec / diagonal: a ramp (so the constructor alone is distinguishable) for the patterns
 \* that keep or overwrite everything, zeros for the identity-like patterns
@@ -61,8 +76,13 @@ BCtor(bkind) == CASE bkind = "I" -> "identity" [] bkind = "F" -> "zeros" [] bkin
 StA(sc) == CtorStorage(sc.ctor, sc.n, sc.ml, sc.mu)
 StB(sc) == CtorStorage(BCtor(sc.bkind), sc.n, sc.bml, sc.bmu)
 InitA(sc) == InitData(sc.ctor, sc.pat, sc.n)
-WsA(sc) == FillWrites(sc.pat, StA(sc), sc.n)
-WsB(sc) == FillWrites(sc.bpat, StB(sc), sc.n)
+HasPf(sc)  == sc.pf # 0
+HasPfB(sc) == sc.pf # 0 /\ sc.bkind # "I"
+WsA(sc) == FillWritesX(sc.pat, StA(sc), sc.n, HasPf(sc))
+WsB(sc) == FillWritesX(sc.bpat, StB(sc), sc.n, HasPfB(sc))
+\* what the Level-B model shows after fill(v) (NOT a contract clause: C17 does not specify fill): the stored,
+\* i.e. writable, entries become v
+FillMeaning(st, d, v) == [i \in 1..Len(d) |-> [j \in 1..Len(d) |-> IF Writable(st, i - 1, j - 1) THEN v ELSE d[i][j]]]
 
 StC(sc) == CtorStorage(BCtor(sc.ckind), sc.n, sc.cml, sc.cmu)
 WsC(sc) == FillWrites(sc.cpat, StC(sc), sc.n)
@@ -76,6 +96,8 @@ Ops == {"read", "write", "is_identity", "swap_rows", "fill"} \cup BinOps \cup Sc
 
 (* ---- Level-B execution of the steps (pure operators on model state) ---- *)
 StepCtorA(sc) == DoCtor(sc.ctor, sc.n, sc.ml, sc.mu, InitA(sc))
+StepPrefillA(sc, A) == [panic |-> FALSE, mat |-> Fill(A, sc.pf)]
+StepPrefillB(sc, B) == [panic |-> FALSE, mat |-> Fill(B, sc.pf)]
 StepFillA(sc, A) == DoWrites(A, WsA(sc))
 StepCtorB(sc) == DoCtor(BCtor(sc.bkind), sc.n, sc.bml, sc.bmu, <<>>)
 StepFillB(sc, B) == DoWrites(B, WsB(sc))
@@ -139,8 +161,11 @@ ClauseName(sc) ==
 
 (* ---- expected results of a scenario by the contract (for the REPLAY record) ---- *)
 ExpectA0(sc) == CtorMeaning(sc.ctor, sc.n, InitA(sc))
-ExpectA1(sc) == WritesMeaning(ExpectA0(sc), WsA(sc), 1)
-ExpectB1(sc) == WritesMeaning(CtorMeaning(BCtor(sc.bkind), sc.n, <<>>), WsB(sc), 1)
+ExpectAf(sc) == IF HasPf(sc) THEN FillMeaning(StA(sc), ExpectA0(sc), sc.pf) ELSE ExpectA0(sc)
+ExpectA1(sc) == WritesMeaning(ExpectAf(sc), WsA(sc), 1)
+ExpectB0(sc) == CtorMeaning(BCtor(sc.bkind), sc.n, <<>>)
+ExpectBf(sc) == IF HasPfB(sc) THEN FillMeaning(StB(sc), ExpectB0(sc), sc.pf) ELSE ExpectB0(sc)
+ExpectB1(sc) == WritesMeaning(ExpectBf(sc), WsB(sc), 1)
 ExpectPanic(sc) == sc.op = "write" /\ ~Writable(StA(sc), sc.i, sc.j)
 ExpectRes(sc) ==
   CASE sc.op = "write" -> IF ExpectPanic(sc) THEN ExpectA1(sc) ELSE WriteMeaning(ExpectA1(sc), sc.i, sc.j, WRITEVAL)
